@@ -59,6 +59,8 @@ def vector(spec, seed_unused=None):
         if len(spec) > 4:
             v = v * float(spec[4])
         return v
+    if kind == 'aff':   # ['aff', k, n, seed, offset, scale]: offset + scale * generic table (clustered / tiny data)
+        return float(spec[4]) + float(spec[5]) * generic(int(spec[2]), int(spec[1]), int(spec[3]))
     raise KeyError(spec)
 
 
